@@ -211,6 +211,10 @@ func checkC14(c *Check) {
 		}
 	}
 	c.Expect("4/one-answer-per-call", 5)
+
+	// ---------- 5: a full-size batch fits the control buffer ----------
+	importObs(c, "C19", "C19.9/control-buffer-size", "5/batch-fits", nil)
+	c.Expect("5/batch-fits", 1)
 }
 
 func firstElem(v ssa.Value) (ssa.Value, bool) {
